@@ -1,7 +1,8 @@
 """C07 — HCOBS wire format: constants, production parameters, header codec, decoder validation guards."""
 from .util import *  # noqa: F401,F403
-from engine.woodlint.db import Pos, as_relation, show
+from engine.woodlint.db import Pos, as_relation, show, Unrecognised
 from engine.woodlint.skeleton import skeleton, diff
+from . import c02
 
 PROPERTY = 'C07'
 
@@ -28,7 +29,7 @@ NOT decided: greedy chunk boundaries and equality of the accept set with an inde
 
 ASSUMPTIONS = ['the canonical format is the one described in the property (252 / 64008 / radix 253 / FE FD)']
 
-FLOORS = {'R7.1': 5, 'R7.2': 6, 'R7.3': 7, 'R7.4': 14}
+FLOORS = {'R7.1': 5, 'R7.2': 6, 'R7.3': 7, 'R7.4': 14, 'R7.5': 7}
 
 
 def r7_1(cx):
@@ -184,7 +185,19 @@ def _guard(cx, fn, variant, pred, what):
     ok = any(pred(r) for r in rels)
     cx.check(ok, 'guard:%s@%s' % (variant, short(fn.name)), fn, fn.loc(pos.bb), '%s => Err(%s)' % (what, variant),
              fail_detail='Err(%s) is built under %s, expected %s' % (variant, [(r[0], show(r[1])[:40], show(r[2])[:40]) for r in rels], what))
-    # and nowhere else: the passing side cannot reach it
+    # the check cannot be bypassed: every Ok(..) of this function is built under the negated guard
+    neg = {'Gt': 'Le', 'Ge': 'Lt'}
+    oks = [p for p, st in fn.statements() if st['k'] == 'assign' and st['pl']['l'] == 0 and st['rv']['k'] == 'agg' and st['rv']['variant'] == 'Ok']
+    rets = [cs for cs in fn.calls() if cs.t['dest']['l'] == 0 and not cs.t['dest']['p'] and 'from_residual' not in cs.callee]
+    bad = []
+    for p in oks + [cs.pos for cs in rets]:
+        rr = [as_relation((e, v)) for e, v, ed in fn.facts_at(p.bb)]
+        rr = [r for r in rr if r]
+        if not any(r[0] in neg.values() and pred((dict((v, k) for k, v in neg.items())[r[0]], r[1], r[2])) for r in rr):
+            bad.append(p)
+    cx.check(not bad, 'unbypassable:%s@%s' % (variant, short(fn.name)), fn, fn.loc(bad[0].bb) if bad else fn.loc(pos.bb),
+             'every Ok(..) of %s is built on the passing side of this check (%d sites)' % (short(fn.name), len(oks) + len(rets)),
+             fail_detail='%s can return Ok without having passed the `%s` check (a fast path around the validation)' % (short(fn.name), what))
     return pos
 
 
@@ -292,4 +305,20 @@ def r7_4(cx):
     cx.check(dd is None, 'dispatch-twins', a, None, 'decode_borrow and decode_copy have the same skeleton', fail_detail='decode_borrow / decode_copy diverge at %s' % (dd,))
 
 
-RULES = [('R7.1', r7_1), ('R7.2', r7_2), ('R7.3', r7_3), ('R7.4', r7_4)]
+def r7_5(cx):
+    """greedy chunking rests on find_stuff_sequence being an exhaustive in-order scan, on the truncated window (R2.6, R2.3)"""
+    sub = cx.__class__(cx.prog, cx.profile, cx.prop)
+    for rid, f in (('R2.6', c02.r2_6), ('R2.3', c02.r2_3)):
+        sub.rule = rid
+        try:
+            f(sub)
+        except Unrecognised as e:
+            sub.unrecognised('anchor', detail='rule cannot be evaluated on this tree: %s' % e)
+    for r in sub.records:
+        r = dict(r)
+        r['instance'] = r['rule'] + ':' + r['instance']
+        r['rule'] = cx.rule
+        cx.records.append(r)
+
+
+RULES = [('R7.1', r7_1), ('R7.2', r7_2), ('R7.3', r7_3), ('R7.4', r7_4), ('R7.5', r7_5)]
